@@ -111,8 +111,12 @@ def check_peaks(heights, split, count, acc):
         if sorted((p.height for p in peaks), reverse=True) != [float(x) for x in want]:
             found.append(('createPeaks-not-top-N', 'heights %s count %d kept %s' % (g, count, [p.height for p in peaks]), 'createPeaks', {}))
         corrs.append(type('C', (), dict(peaks=peaks))())
-    sel = PeaksSelector(count).selectPeaks(iter(corrs))
+    selector = PeaksSelector(count)
+    sel = selector.selectPeaks(iter(corrs))
     got = [sp.peak.score for sp in sel]
+    again = [sp.peak.score for sp in selector.selectPeaks(iter(corrs[::-1]))]        # second call on the same selector, other order
+    if sorted(again, reverse=True) != sorted(got, reverse=True) or again != sorted(again, reverse=True):
+        found.append(('selector-second-call-differs', 'first %s second %s' % (got, again), 'selectPeaks', {}))
     allscores = sorted((p.score for c in corrs for p in c.peaks), reverse=True)
     if got != allscores[:count]:
         found.append(('selector-not-top-N-descending', 'got %s of %s' % (got, allscores), 'selectPeaks', {}))
